@@ -271,19 +271,19 @@ func WaitSeries(s *proc.Server, db string, pts []model.Point, wd time.Duration) 
 	}
 }
 
-// StableDump reads the full contents repeatedly until two consecutive dumps are equal
-// (after a restart the first answers can be partial while partitions come online). It
-// also keeps polling, up to wd, while the dump still lacks rows of `want` — missing data
-// is judged only on a dump that stayed stable. Never waits when the dump already
-// matches.
-func StableDump(s *proc.Server, db string, msts []string, schema map[string]map[string]byte, want model.Contents, wd time.Duration) (model.Contents, []model.Problem, error) {
+// StableDump reads the full contents repeatedly until accept(dump) holds, or the dump
+// stayed identical for 12 consecutive reads (3 s), or wd elapsed. After a restart the
+// first answers can be partial while partitions come online and series become visible,
+// so missing data is judged only on a dump that stayed stable. Never waits when the
+// first dump is already acceptable.
+func StableDump(s *proc.Server, db string, msts []string, schema map[string]map[string]byte, accept func(model.Contents) bool, wd time.Duration) (model.Contents, []model.Problem, error) {
 	deadline := time.Now().Add(wd)
 	var prev model.Contents
 	stable := 0
 	for {
 		cur, probs, err := Dump(s, db, msts, schema, DumpOpts{})
 		if err == nil {
-			if want != nil && len(model.Diff(want, cur, "", 1)) == 0 {
+			if accept != nil && accept(cur) {
 				return cur, probs, nil
 			}
 			if prev != nil && len(model.Diff(prev, cur, "", 1)) == 0 {
@@ -295,7 +295,7 @@ func StableDump(s *proc.Server, db string, msts []string, schema map[string]map[
 			if stable >= 12 || time.Now().After(deadline) {
 				return cur, probs, nil
 			}
-		} else if time.Now().After(deadline) {
+		} else if time.Now().After(deadline) || !s.Alive() {
 			return nil, nil, err
 		}
 		time.Sleep(250 * time.Millisecond)
